@@ -348,6 +348,25 @@ Theorem get_field_rows_agree s :
   transpose_rows (snd (pdf s)) (map (fun fl => (fl, df_get_field dflt (pdf s) fl)) fields) = elites_spec s.
 Proof. exact (iterelites_agrees s). Qed.
 
+(** all read paths at once *)
+Theorem read_paths_agree (s : store R) :
+  let spec := elites_spec s in
+  let df := pdf s in
+  elites_of_dict (read_dict fields proj rdflt s) = spec /\
+  elites_of_tuple fields (read_tuple fields proj rdflt s) = spec /\
+  transpose_rows (olist s) (map (fun fl => (fl, read_single proj rdflt s fl)) fields) = spec /\
+  read_iter fields proj rdflt s = spec /\
+  snd df = olist s /\
+  (forall fl, In fl fields -> df_get_field dflt df fl = column s fl) /\
+  transpose_rows (snd df) (map (fun fl => (fl, df_get_field dflt df fl)) fields) = spec /\
+  df_iterelites dflt fields df = spec.
+Proof.
+  cbv zeta.
+  repeat split;
+    eauto using read_dict_agrees, read_tuple_agrees, read_single_agrees, read_iter_agrees, get_field_agrees,
+                get_field_rows_agree, iterelites_agrees.
+Qed.
+
 (** the elites ARE the store's contents: data() of Model/Store.v, field by field *)
 Theorem elites_spec_is_data s :
   elites_spec s =
